@@ -28,6 +28,7 @@ var c09ValuePrograms = []string{
 	"&c = 1 + 1; &c", "&c = 2d6k1; &c", "&c = x; &c.a = 1; &c.b = [1]; &c", "&c = ''; &c", "[&c]", "&c = 1; {'k': &c}",
 	"ceil", "[ceil, toStr]", "{'f': dir}", "[1,2].sum", "{'m': [1].push}", "x = [1,2]; x.kh",
 	"x = [1]; x.push(x); x", "x = {}; x.k = x; x", "x = [1]; y = {'a': x}; x.push(y); x", "x = [1]; [x, x]", "x = {'a': 1}; {'p': x, 'q': x}",
+	"{'" + strings.Repeat("k", 100) + "': 1, 'a': 2, 'b': 3, 'c': [4], 'd': {'e': 5, 'f': 6}}", "x = {}; x['" + strings.Repeat("长", 60) + "'] = 1; x.a = 2; x.b = {'p': 1, 'q': 2, 'r': 3}; x", "{'a': 1, 'bb': 2, 'ccc': 3, 'dddd': 4, '" + strings.Repeat("e", 300) + "': 5, 'f': 6, 'g': 7}",
 	"&c = 1 + 1; &c.x = &c; &c", "&c = 1; &c.a = [&c]; &c", "x = [1]; &c = 1; &c.a = x; x.push(&c); x", "&c = 1; &c.a = 1; [&c, &c]", "&c = 1; &c.a = [1]; {'p': &c, 'q': &c.a}", "x = {'a': 1}; y = {'__proto__': x}; [x, y, {'__proto__': x}]",
 	"x = 9999999999.0; x = x*x; x = x*x; x = x*x; x = x*x; x = x*x; x", "x = 9999999999.0; x = x*x; x = x*x; x = x*x; x = x*x; x = x*x; [x - x]", "x = 9999999999.0; x = x*x; x = x*x; x = x*x; x = x*x; x = x*x; {'a': -x}",
 	"[1..5]", "[[]] * 3", "x = [1,2,3]; x[1:]", "'x' + 'y'", "`t{1}{'s'}`", "2d1", "[2d1, f]",
@@ -258,6 +259,29 @@ func c09Run(raw json.RawMessage) harn.Result {
 			if x, y := drv.CanonAttrs(a.Attrs), drv.CanonAttrs(b.Attrs); x != y {
 				viol("C09:restored-variables-differ", fmt.Sprintf("after %q: original %s restored %s", c.Stmts[:split], x, y))
 				continue
+			}
+			// the same snapshot restored into VMs that have been used (variables assigned / read / deleted / listed): a restore
+			// replaces the variables, it does not merge into them
+			for ui, warm := range [][]string{{"u1 = 1; u2 = [2]"}, {"u1 = 1", "u1"}, {"u1 = 1; u2 = 2", "u1 + u2", "u3 = 3"}} {
+				u := drv.NewVM(cfg)
+				for _, w := range warm {
+					_ = u.Run(w)
+				}
+				if ui == 2 {
+					u.Attrs.Delete("u1")
+					u.Attrs.Range(func(string, *ds.VMValue) bool { return true })
+				}
+				var uerr error
+				if site, p := harn.Guard(func() { uerr = u.Attrs.UnmarshalJSON(snap) }); p {
+					viol(site, fmt.Sprintf("after %q: panic restoring into a used VM", c.Stmts[:split]))
+					break
+				}
+				if uerr == nil {
+					if x, y := drv.CanonAttrs(a.Attrs), drv.CanonAttrs(u.Attrs); x != y {
+						viol("C09:restore-into-used-vm-differs", fmt.Sprintf("after %q: snapshot %s restored into a VM that had run %q gives %s", c.Stmts[:split], x, warm, y))
+						break
+					}
+				}
 			}
 			for _, s := range c.Stmts[split:] {
 				oa := drv.Eval(a, s, false)
